@@ -2,6 +2,7 @@ package rules
 
 import (
 	"fmt"
+	"go/constant"
 	"go/token"
 	"go/types"
 	"regexp"
@@ -11,6 +12,7 @@ import (
 	"golang.org/x/tools/go/ssa"
 
 	"verif/checker/internal/ir"
+	"verif/checker/internal/report"
 )
 
 // C16 - signatures made by other tools are parsed and verified. What other
@@ -25,7 +27,17 @@ import (
 // as they appear in the blob"): whatever the parser drops can be added to a
 // valid blob without the verifier noticing.
 
-func init() { Registry["C16"] = checkC16 }
+func init() {
+	Registry["C16"] = checkC16
+	// "the signed message digest equals the SHA-256 of that content" (C04, C02): which octets are hashed
+	for _, id := range []string{"C04", "C02"} {
+		Extras[id] = append(Extras[id], func(c *Ctx) { c.ruleContentValue("A.content-value") })
+	}
+	// the attribute encoder is the signer's too (C05)
+	Extras["C05"] = append(Extras["C05"], func(c *Ctx) {
+		c.ruleLoopAlias("X6.distinct", func(f *ssa.Function) bool { return strings.Contains(name(f), "pkcs7.") })
+	})
+}
 
 const oidEqualID = "encoding/asn1.ObjectIdentifier.Equal"
 
@@ -36,12 +48,17 @@ func checkC16(c *Ctx) {
 	c.ruleUnknownAttrs("X2.unknown")
 	c.ruleAttrPair("X3.pair")
 	c.ruleAttrLossless("A.lossless")
-	c.R.Floor("X1.optional", 3)
+	c.ruleParamsCompare("X1.params-compare")
+	c.ruleContentValue("A.content-value")
+	// one closure per attribute kept for later must not share the loop variable
+	c.ruleLoopAlias("X6.distinct", func(f *ssa.Function) bool { return strings.Contains(name(f), "pkcs7.") })
+	c.R.Floor("X6.distinct", 1)
+	c.R.Floor("X1.optional", 1)
 	c.R.Floor("X1.params", 1)
 	c.R.Floor("X4.outer", 1)
 	c.R.Floor("X2.unknown", 1)
-	c.R.Floor("X3.pair", 3)
-	c.R.Floor("A.lossless", 2)
+	c.R.Floor("X3.pair", 1)
+	c.R.Floor("A.lossless", 1)
 	// what is verified is the attribute encoder's output for the parsed attributes, by the caller's certificate
 	e := c.accept()
 	if fn := c.Fn("A", "pkcs7.(*PKCS7).Verify"); fn != nil {
@@ -92,6 +109,60 @@ func (c *Ctx) readOf(i ssa.Instruction) *cbRead {
 		}
 	}
 	return r
+}
+
+// readsOf: like readOf, and also a call of a method value of a string
+// (rd := s.ReadASN1UTCTime; if cond { rd = s.ReadASN1GeneralizedTime }; rd(&x)):
+// one read per method the called value may be bound to.
+func (c *Ctx) readsOf(i ssa.Instruction) []*cbRead {
+	if r := c.readOf(i); r != nil {
+		return []*cbRead{r}
+	}
+	call, ok := i.(*ssa.Call)
+	if !ok || call.Call.IsInvoke() || ir.Callee(call) != nil {
+		return nil
+	}
+	var out []*cbRead
+	seen := map[ssa.Value]bool{}
+	var walk func(v ssa.Value, depth int)
+	walk = func(v ssa.Value, depth int) {
+		if depth > 6 || v == nil || seen[v] {
+			return
+		}
+		seen[v] = true
+		switch x := v.(type) {
+		case *ssa.Phi:
+			for _, e := range x.Edges {
+				walk(e, depth+1)
+			}
+		case *ssa.MakeClosure:
+			fn, _ := x.Fn.(*ssa.Function)
+			if fn == nil || len(x.Bindings) != 1 || !strings.HasPrefix(fn.Synthetic, "bound method wrapper") {
+				return
+			}
+			obj, _ := fn.Object().(*types.Func)
+			if obj == nil || obj.Pkg() == nil || obj.Pkg().Path() != cbPkg {
+				return
+			}
+			m := obj.Name()
+			if !(strings.HasPrefix(m, "Read") || strings.HasPrefix(m, "Skip")) {
+				return
+			}
+			r := &cbRead{call: call, method: m, recv: x.Bindings[0]}
+			for _, a := range call.Call.Args {
+				if _, isPtr := a.Type().Underlying().(*types.Pointer); isPtr {
+					r.outs = append(r.outs, a)
+				} else if ir.NamedTypeID(a.Type()) == cbPkg+"/asn1.Tag" {
+					if n, ok := c.tagValue(a, 0); ok {
+						r.tag, r.hasTag = n, true
+					}
+				}
+			}
+			out = append(out, r)
+		}
+	}
+	walk(call.Call.Value, 0)
+	return out
 }
 
 // kind names the ASN.1 primitive a read takes off the string.
@@ -191,10 +262,8 @@ func (c *Ctx) pkcs7ParserFuncs(rule string) []*ssa.Function {
 	if root == nil {
 		return nil
 	}
-	var out []*ssa.Function
-	for _, f := range c.cone(root) {
-		out = append(out, withAnon(f)...)
-	}
+	// through function values too (parsers handed to a generic field reader, method values)
+	out, _ := c.valueCone(root)
 	return out
 }
 
@@ -379,13 +448,30 @@ func (c *Ctx) attrSites(fns []*ssa.Function) []attrSite {
 					kind = c.valueKind(fn, x.Val, 0)
 				}
 			case *ssa.Call:
-				r := c.readOf(x)
-				if r == nil {
+				rs := c.readsOf(x)
+				if len(rs) == 0 {
 					return
 				}
-				for _, o := range r.outs {
+				for _, r := range rs[1:] {
+					for _, o := range r.outs {
+						if f := attrField(o); f != "" {
+							pos, neg := oidGuards(fn, i.Block())
+							g := ""
+							switch {
+							case len(pos) == 1:
+								g = pos[0]
+							case len(pos) == 0 && len(neg) > 0:
+								g = "*"
+							case len(pos) > 1:
+								g = "?"
+							}
+							out = append(out, attrSite{fn, i, f, r.kind(), g})
+						}
+					}
+				}
+				for _, o := range rs[0].outs {
 					if f := attrField(o); f != "" {
-						field, kind = f, r.kind()
+						field, kind = f, rs[0].kind()
 					}
 				}
 				if field == "" {
@@ -459,8 +545,9 @@ func (c *Ctx) ruleAttrPair(rule string) {
 	}
 	// field level: parsed fields are read by the encoder's cone
 	readByEnc := map[string]bool{}
-	for _, g := range c.cone(enc) {
-		for _, f := range withAnon(g) {
+	encCone, _ := c.valueCone(enc)
+	for _, g := range encCone {
+		for _, f := range []*ssa.Function{g} {
 			instrsOf(f, func(i ssa.Instruction) {
 				switch x := i.(type) {
 				case *ssa.FieldAddr:
@@ -552,7 +639,16 @@ func (c *Ctx) ruleAttrPair(rule string) {
 		sort.Strings(bad)
 		switch {
 		case len(bad) > 0:
-			c.R.Violf(rule, name(at.fn), construct, c.IPos(at.at), what, f+": "+strings.Join(bad, "; "))
+			// both wire forms were resolved to reads of the string (also through method
+			// values): the finding does not depend on a construct the evaluators do not model
+			hard := false
+			for _, b := range bad {
+				if strings.Contains(b, "different wire forms") {
+					hard = true
+				}
+			}
+			c.R.Add(report.Obligation{Rule: rule, Key: rule + "@" + name(at.fn) + ":" + construct, Func: name(at.fn), Pos: c.IPos(at.at), What: what,
+				Status: report.Violation, Detail: f + ": " + strings.Join(bad, "; "), Hard: hard})
 		case len(undecided) > 0:
 			c.R.Infof(rule, name(at.fn), construct, c.IPos(at.at), "not decided for this shape: "+f+": "+strings.Join(undecided, "; "))
 		default:
@@ -718,6 +814,18 @@ func (c *Ctx) ruleOptionalElements(rule string) {
 				construct := strings.TrimPrefix(key, name(fn)+":")
 				if strings.HasPrefix(r.method, "ReadOptional") || strings.HasPrefix(r.method, "SkipOptional") {
 					c.R.Okf(rule, name(fn), construct, c.IPos(i), "the "+tagName+" element is read as optional ("+r.method+")")
+					// a reader shared by several parser functions: the element of each of them is read here
+					for _, g := range fns {
+						if g == fn {
+							continue
+						}
+						instrsOf(g, func(j ssa.Instruction) {
+							if gc, isCall := j.(ssa.CallInstruction); isCall && ir.Callee(gc) == fn {
+								gk := ordinalKey(counts, name(g)+":"+tagName)
+								c.R.Okf(rule, name(g), strings.TrimPrefix(gk, name(g)+":"), c.IPos(j), "the "+tagName+" element is read as optional ("+r.method+" in "+name(fn)+")")
+							}
+						})
+					}
 					continue
 				}
 				cut := map[ir.Edge]bool{}
@@ -870,9 +978,64 @@ func (c *Ctx) ruleAttrLossless(rule string) {
 	}
 	whatRest := "inside the signed attributes every structure the parser cuts out is accounted for to the end (the signature is checked over a re-encoding of what was kept: what is dropped can be added to a valid blob unnoticed)"
 	counts := map[string]int{}
+	// the functions that parse inside the signed attributes: the one(s) that read the [0]
+	// element and reach a function that fills the parsed attributes, and what they call
+	inCone := func(root *ssa.Function, want map[*ssa.Function]bool) (map[*ssa.Function]bool, bool) {
+		seen := map[*ssa.Function]bool{}
+		hit := false
+		var walk func(f *ssa.Function, d int)
+		walk = func(f *ssa.Function, d int) {
+			if f == nil || seen[f] || d > 6 || f.Blocks == nil || !c.P.InLib(f) {
+				return
+			}
+			seen[f] = true
+			if want[f] {
+				hit = true
+			}
+			for _, g := range withAnon(f) {
+				seen[g] = true
+				if want[g] {
+					hit = true
+				}
+				instrsOf(g, func(i ssa.Instruction) {
+					if call, ok := i.(ssa.CallInstruction); ok {
+						walk(ir.Callee(call), d+1)
+					}
+				})
+			}
+		}
+		walk(root, 0)
+		return seen, hit
+	}
+	regionFn := map[*ssa.Function]bool{}
+	isRoot := map[*ssa.Function]bool{}
+	for _, fn := range fns {
+		has0 := false
+		instrsOf(fn, func(i ssa.Instruction) {
+			for _, r := range c.readsOf(i) {
+				if r.hasTag && r.tag == 0xa0 {
+					has0 = true
+				}
+			}
+		})
+		if !has0 {
+			continue
+		}
+		if cone, hit := inCone(fn, inAttrFn); hit {
+			isRoot[fn] = true
+			for f := range cone {
+				regionFn[f] = true
+			}
+		}
+	}
+	if len(regionFn) == 0 {
+		for f := range inAttrFn {
+			regionFn[f] = true
+		}
+	}
 	var order []*ssa.Function
 	for _, fn := range fns {
-		if inAttrFn[fn] {
+		if regionFn[fn] {
 			order = append(order, fn)
 		}
 	}
@@ -889,9 +1052,7 @@ func (c *Ctx) ruleAttrLossless(rule string) {
 		}
 		var reads []*cbRead
 		instrsOf(fn, func(i ssa.Instruction) {
-			if r := c.readOf(i); r != nil {
-				reads = append(reads, r)
-			}
+			reads = append(reads, c.readsOf(i)...)
 		})
 		for _, r := range reads {
 			if r.hasTag && r.tag == 0xa0 {
@@ -902,13 +1063,26 @@ func (c *Ctx) ruleAttrLossless(rule string) {
 				}
 			}
 		}
-		if len(region) == 0 {
-			// a helper that receives the attribute string: its string parameters
+		callerHeld := map[ssa.Value]bool{}
+		if !isRoot[fn] {
+			// a helper that receives a string of the region: its string parameters (a string
+			// received by address stays with the caller, who has to account for its rest)
 			for _, p := range fn.Params {
 				if ir.NamedTypeID(deref(p.Type())) == cbPkg+".String" {
 					region = append(region, p)
+					if _, isPtr := p.Type().Underlying().(*types.Pointer); isPtr {
+						callerHeld[p] = true
+					}
 				}
 			}
+			// by-value string parameters are spilled to a cell: the cell is the string
+			instrsOf(fn, func(i ssa.Instruction) {
+				if st, ok := i.(*ssa.Store); ok {
+					if p, isP := st.Val.(*ssa.Parameter); isP && ir.NamedTypeID(p.Type()) == cbPkg+".String" {
+						region = append(region, st.Addr)
+					}
+				}
+			})
 		}
 		for changed := true; changed; {
 			changed = false
@@ -926,6 +1100,9 @@ func (c *Ctx) ruleAttrLossless(rule string) {
 		}
 		for _, r := range reads {
 			if !inRegion(r.recv) {
+				continue
+			}
+			if callerHeld[r.recv] {
 				continue
 			}
 			key := ordinalKey(counts, name(fn)+":rest:"+r.method)
@@ -1035,7 +1212,7 @@ func (c *Ctx) ruleAttrLossless(rule string) {
 		if strings.Contains(s.field, ".") || s.kind == "LIST" || s.guard == "" || s.guard == "*" || s.guard == "?" {
 			continue
 		}
-		if !inLoop(s.fn, s.at.Block()) {
+		if !inLoop(s.fn, s.at.Block()) && !c.calledFromLoop(s.fn, fns) {
 			continue
 		}
 		key := name(s.fn) + ":once:" + s.field
@@ -1073,6 +1250,12 @@ func (c *Ctx) ruleAttrLossless(rule string) {
 			}
 			if guardEdge != nil && flagSetUnder(s.fn, ce.Cond, guardEdge.Edge, map[ssa.Value]bool{}, 0) {
 				ok = true
+			}
+			// a test-and-set helper on state the caller holds (seen.first(kind))
+			if call, isC := ce.Cond.(*ssa.Call); isC {
+				if callee := ir.Callee(call); callee != nil && c.P.InLib(callee) && testAndSet(callee) {
+					ok = true
+				}
 			}
 		}
 		c.R.Check(ok, rule, name(s.fn), "once:"+s.field, c.IPos(s.at), whatOnce,
@@ -1180,6 +1363,525 @@ func flagSetUnder(fn *ssa.Function, v ssa.Value, e ir.Edge, seen map[ssa.Value]b
 		}
 	case *ssa.BinOp:
 		return flagSetUnder(fn, x.X, e, seen, depth+1) || flagSetUnder(fn, x.Y, e, seen, depth+1)
+	}
+	return false
+}
+
+// ---- X1.params-compare: verification does not hinge on one encoding of the parameters
+
+// mentionsFieldPath: v is (a load / sub-field / slice of) the named field.
+func mentionsFieldPath(v ssa.Value, field string, depth int) bool {
+	if depth > 8 || v == nil {
+		return false
+	}
+	if ir.FieldID(v) == field {
+		return true
+	}
+	switch x := v.(type) {
+	case *ssa.UnOp:
+		return mentionsFieldPath(x.X, field, depth+1)
+	case *ssa.FieldAddr:
+		return mentionsFieldPath(x.X, field, depth+1)
+	case *ssa.Field:
+		return mentionsFieldPath(x.X, field, depth+1)
+	case *ssa.Slice:
+		return mentionsFieldPath(x.X, field, depth+1)
+	case *ssa.ChangeType:
+		return mentionsFieldPath(x.X, field, depth+1)
+	case *ssa.Convert:
+		return mentionsFieldPath(x.X, field, depth+1)
+	case *ssa.Phi:
+		for _, e := range x.Edges {
+			if mentionsFieldPath(e, field, depth+1) {
+				return true
+			}
+		}
+	}
+	return false
+}
+
+// ruleParamsCompare: an AlgorithmIdentifier's parameters are legally absent or an
+// explicit NULL (openssl cms writes SHA-256 without, openssl smime and sbsign
+// with). A comparison of the parameters with one value must therefore not be
+// necessary for acceptance: the function that makes it still accepts with the
+// comparison's true edge removed.
+func (c *Ctx) ruleParamsCompare(rule string) {
+	const pfield = "crypto/x509/pkix.AlgorithmIdentifier.Parameters"
+	n := 0
+	counts := map[string]int{}
+	what := "algorithm parameters are accepted absent as well as as an explicit NULL: equality of the parameters with one value is not necessary for acceptance"
+	for _, fn := range c.P.LibFunctions() {
+		if fn.Pkg == nil || !(strings.HasSuffix(fn.Pkg.Pkg.Path(), "/pkcs7") || strings.HasSuffix(fn.Pkg.Pkg.Path(), "/authenticode")) {
+			continue
+		}
+		for _, f := range withAnon(fn) {
+			var cmps []ssa.Value
+			instrsOf(f, func(i ssa.Instruction) {
+				switch x := i.(type) {
+				case *ssa.Call:
+					switch ir.CallID(x) {
+					case "bytes.Equal", "reflect.DeepEqual", "slices.Equal":
+						for _, a := range ir.CallArgs(x) {
+							if mentionsFieldPath(ir.StripIface(a), pfield, 0) {
+								cmps = append(cmps, x)
+								return
+							}
+						}
+					}
+				}
+			})
+			for _, cmp := range cmps {
+				n++
+				key := ordinalKey(counts, name(f)+":parameters-compared")
+				cut := map[ir.Edge]bool{}
+				for _, ce := range ir.CondEdges(f) {
+					if ce.Cond == cmp && ce.Truth {
+						cut[ce.Edge] = true
+					}
+				}
+				seen, _ := ir.Reach(f, f.Blocks[0], cut)
+				ok := false
+				rs := f.Signature.Results()
+				for _, r := range acceptingReturns(f) {
+					if !seen[r.Block().Index] {
+						continue
+					}
+					if rs.Len() > 0 && isBoolType(rs.At(0).Type()) && len(r.Results) > 0 {
+						if !mayBeTrueWithout(r.Results[0], cmp, map[ssa.Value]bool{}) {
+							continue
+						}
+					}
+					ok = true
+				}
+				c.R.Check(ok, rule, name(f), strings.TrimPrefix(key, name(f)+":"), c.Pos(ir.InstrPos(cmp.(ssa.Instruction))), what,
+					"every accepting outcome of "+name(f)+" needs the equality of an AlgorithmIdentifier's parameters with one value: identifiers that carry the other legal form (openssl cms writes SHA-256 without parameters, smime and sbsign with NULL) are turned away")
+			}
+		}
+	}
+	if n == 0 {
+		if root := c.FnOpt("pkcs7.ParsePKCS7"); root != nil {
+			c.R.Okf(rule, name(root), "parameters-compared", c.Pos(root.Pos()), "no comparison of algorithm parameters in pkcs7 / authenticode")
+		}
+	}
+}
+
+// mayBeTrueWithout: the boolean v can be true although cmp is false (cmp itself
+// cannot; a constant as it says; a phi if one of its values can; anything else: yes).
+func mayBeTrueWithout(v, cmp ssa.Value, seen map[ssa.Value]bool) bool {
+	if v == cmp {
+		return false
+	}
+	if seen[v] {
+		return false
+	}
+	seen[v] = true
+	switch x := v.(type) {
+	case *ssa.Const:
+		if x.Value != nil && x.Value.Kind() == constant.Bool {
+			return constant.BoolVal(x.Value)
+		}
+	case *ssa.Phi:
+		for _, e := range x.Edges {
+			if mayBeTrueWithout(e, cmp, seen) {
+				return true
+			}
+		}
+		return false
+	case *ssa.BinOp:
+		if x.Op == token.AND {
+			return mayBeTrueWithout(x.X, cmp, seen) && mayBeTrueWithout(x.Y, cmp, seen)
+		}
+	}
+	return true
+}
+
+// ---- A.content-value: the digest covers the value octets of exactly one element
+
+// stripCounts: how many tag-and-length headers have been taken off the
+// encapsulated content ([0] of the ContentInfo inside SignedData) on the way to
+// v: a set of counts (-1: unknown). The out-parameter of the [0] read counts 0;
+// every ReadASN1 / ReadAnyASN1 out of such a string counts one more
+// (ReadASN1Element / ReadAnyASN1Element keep the header).
+type stripEval struct {
+	c     *Ctx
+	busy  map[ssa.Value]bool
+	depth int
+}
+
+func (e *stripEval) of(v ssa.Value, fn *ssa.Function) map[int]bool {
+	out := map[int]bool{}
+	add := func(m map[int]bool, d int) {
+		for k := range m {
+			if k < 0 {
+				out[-1] = true
+			} else {
+				out[k+d] = true
+			}
+		}
+	}
+	if v == nil || e.busy[v] {
+		return out
+	}
+	e.depth++
+	defer func() { e.depth-- }()
+	if e.depth > 40 {
+		out[-1] = true
+		return out
+	}
+	e.busy[v] = true
+	defer delete(e.busy, v)
+	switch x := v.(type) {
+	case *ssa.Const:
+		if x.Value != nil {
+			out[-1] = true
+		}
+		// nil: no content
+	case *ssa.ChangeType:
+		add(e.of(x.X, fn), 0)
+	case *ssa.Convert:
+		add(e.of(x.X, fn), 0)
+	case *ssa.MakeInterface:
+		add(e.of(x.X, fn), 0)
+	case *ssa.Slice:
+		if x.Low == nil && x.High == nil {
+			add(e.of(x.X, fn), 0)
+		} else {
+			out[-1] = true
+		}
+	case *ssa.Phi:
+		for _, ed := range x.Edges {
+			add(e.of(ed, fn), 0)
+		}
+	case *ssa.Extract:
+		if call, ok := x.Tuple.(*ssa.Call); ok {
+			if callee := ir.Callee(call); callee != nil && e.c.P.InLib(callee) {
+				for _, r := range ir.Returns(callee) {
+					if x.Index < len(r.Results) && retClass(callee, r) != "fail" {
+						add(e.of(effectiveResult(callee, r, x.Index), callee), 0)
+					}
+				}
+				break
+			}
+		}
+		out[-1] = true
+	case *ssa.Call:
+		if callee := ir.Callee(x); callee != nil && e.c.P.InLib(callee) && callee.Signature.Results().Len() == 1 {
+			for _, r := range ir.Returns(callee) {
+				if len(r.Results) == 1 {
+					add(e.of(effectiveResult(callee, r, 0), callee), 0)
+				}
+			}
+			break
+		}
+		out[-1] = true
+	case *ssa.Parameter:
+		pf := x.Parent()
+		idx := -1
+		for k, p := range pf.Params {
+			if p == x {
+				idx = k
+			}
+		}
+		found := false
+		if node := e.c.P.CallGraph().Nodes[pf]; node != nil && idx >= 0 {
+			for _, in := range node.In {
+				if in.Site == nil || !e.c.P.InLib(in.Caller.Func) {
+					continue
+				}
+				args := ir.CallArgs(in.Site)
+				if idx < len(args) {
+					found = true
+					add(e.of(args[idx], in.Caller.Func), 0)
+				}
+			}
+		}
+		if !found {
+			out[-1] = true
+		}
+	case *ssa.UnOp:
+		if x.Op != token.MUL {
+			out[-1] = true
+			break
+		}
+		// a field of the parsed blob: whatever the library stores there
+		if id := ir.FieldID(x.X); id == pkcsPkg+".PKCS7.ContentInfo" {
+			n := 0
+			for _, lf := range e.c.P.LibFunctions() {
+				for _, f := range withAnon(lf) {
+					instrsOf(f, func(i ssa.Instruction) {
+						if st, ok := i.(*ssa.Store); ok && ir.FieldID(st.Addr) == id {
+							n++
+							add(e.of(st.Val, f), 0)
+						}
+					})
+				}
+			}
+			if n == 0 {
+				out[-1] = true
+			}
+			break
+		}
+		add(e.ofCell(x.X, fn), 0)
+	default:
+		out[-1] = true
+	}
+	return out
+}
+
+// ofCell: the strip counts of what the cell (a local string / slice variable) may hold.
+func (e *stripEval) ofCell(cell ssa.Value, fn *ssa.Function) map[int]bool {
+	out := map[int]bool{}
+	add := func(m map[int]bool, d int) {
+		for k := range m {
+			if k < 0 {
+				out[-1] = true
+			} else {
+				out[k+d] = true
+			}
+		}
+	}
+	if e.busy[cell] {
+		return out
+	}
+	e.depth++
+	defer func() { e.depth-- }()
+	if e.depth > 40 {
+		out[-1] = true
+		return out
+	}
+	e.busy[cell] = true
+	defer delete(e.busy, cell)
+	cf := fn
+	if a, ok := cell.(*ssa.Alloc); ok {
+		cf = a.Parent()
+	}
+	if p, ok := cell.(*ssa.Parameter); ok {
+		// a *String parameter: the caller's cell
+		add(e.of(p, fn), 0)
+	}
+	n := 0
+	for _, f := range withAnon(topFn(cf)) {
+		instrsOf(f, func(i ssa.Instruction) {
+			if st, ok := i.(*ssa.Store); ok && sameCell(st.Addr, cell) {
+				n++
+				add(e.of(st.Val, f), 0)
+			}
+			for _, r := range e.c.readsOf(i) {
+				for _, o := range r.outs {
+					if !sameCell(o, cell) {
+						continue
+					}
+					n++
+					switch {
+					case r.hasTag && r.tag == 0xa0 && (r.method == "ReadOptionalASN1" || r.method == "ReadASN1"):
+						out[0] = true
+					case r.method == "ReadASN1" || r.method == "ReadAnyASN1" || r.method == "ReadOptionalASN1" || r.method == "ReadASN1Bytes":
+						if sameCell(r.recv, cell) {
+							out[-1] = true
+						} else {
+							add(e.ofCell(r.recv, f), 1)
+						}
+					case r.method == "ReadASN1Element" || r.method == "ReadAnyASN1Element":
+						if sameCell(r.recv, cell) {
+							out[-1] = true
+						} else {
+							add(e.ofCell(r.recv, f), 0)
+						}
+					default:
+						out[-1] = true
+					}
+				}
+			}
+		})
+	}
+	if n == 0 {
+		if _, isP := cell.(*ssa.Parameter); !isP {
+			out[-1] = true
+		}
+	}
+	return out
+}
+
+// ruleContentValue (A.content-value; C04, C02, C16): the messageDigest of a
+// SignedData covers the value octets of the encapsulated content - the [0]
+// content with exactly one tag-and-length header taken off (RFC 2315 9.3, RFC
+// 5652 5.4), whatever the content is. On every way from the parsed [0] content
+// to the hash that is compared with the messageDigest attribute exactly one
+// header is stripped: a parser and a verifier that each strip one "when it looks
+// like it" hash the wrong octets for contents that look like both.
+func (c *Ctx) ruleContentValue(rule string) {
+	what := "the digest compared with the signed messageDigest covers the [0] content with exactly one tag-and-length header taken off, on every path from the parser to the hash"
+	n := 0
+	for _, fn := range c.P.LibFunctions() {
+		if fn.Pkg == nil || !strings.HasSuffix(fn.Pkg.Pkg.Path(), "/pkcs7") {
+			continue
+		}
+		// the function that compares a digest with the messageDigest attribute
+		cmp := false
+		instrsOf(fn, func(i ssa.Instruction) {
+			call, ok := i.(*ssa.Call)
+			if !ok {
+				return
+			}
+			switch ir.CallID(call) {
+			case "bytes.Equal", "crypto/subtle.ConstantTimeCompare", "crypto/hmac.Equal":
+				for _, a := range call.Call.Args {
+					if mentionsFieldPath(a, attrType+".MessageDigest", 0) {
+						cmp = true
+					}
+				}
+			}
+		})
+		if !cmp {
+			continue
+		}
+		instrsOf(fn, func(i ssa.Instruction) {
+			call, ok := i.(*ssa.Call)
+			if !ok {
+				return
+			}
+			var arg ssa.Value
+			switch id := ir.CallID(call); {
+			case id == "crypto/sha256.Sum256":
+				arg = call.Call.Args[0]
+			case call.Call.IsInvoke() && call.Call.Method.Name() == "Write" && len(call.Call.Args) == 1:
+				if strings.HasSuffix(ir.TypeString(call.Call.Value.Type()), "hash.Hash") {
+					arg = call.Call.Args[0]
+				}
+			}
+			if arg == nil {
+				return
+			}
+			n++
+			e := &stripEval{c: c, busy: map[ssa.Value]bool{}}
+			counts := e.of(arg, fn)
+			var ks []string
+			for k := range counts {
+				ks = append(ks, fmt.Sprint(k))
+			}
+			sort.Strings(ks)
+			switch {
+			case counts[-1] || len(counts) == 0:
+				c.R.Infof(rule, name(fn), "hashed-content", c.IPos(call), "not decided for this shape: the way from the parsed [0] content to the hashed bytes is not followed to its end (header counts "+strings.Join(ks, ",")+")")
+			case len(counts) == 1 && counts[1]:
+				c.R.Okf(rule, name(fn), "hashed-content", c.IPos(call), what)
+			default:
+				c.R.Violf(rule, name(fn), "hashed-content", c.IPos(call), what,
+					"between the [0] content and the hash "+strings.Join(ks, " or ")+" headers are taken off depending on the path (parser and verifier each strip one under their own condition): for some contents the digest is computed over the wrong octets and signatures of standard producers over such contents are refused")
+			}
+		})
+	}
+	if n == 0 {
+		if root := c.FnOpt("pkcs7.ParsePKCS7"); root != nil {
+			c.R.Infof(rule, name(root), "hashed-content", c.Pos(root.Pos()), "not decided for this shape: no function of pkcs7 both hashes and compares with the messageDigest attribute")
+		}
+	}
+}
+
+// calledFromLoop: some parser function calls fn (directly) from inside a loop.
+func (c *Ctx) calledFromLoop(fn *ssa.Function, fns []*ssa.Function) bool {
+	for _, g := range fns {
+		found := false
+		instrsOf(g, func(i ssa.Instruction) {
+			if call, ok := i.(ssa.CallInstruction); ok && ir.Callee(call) == fn && inLoop(g, i.Block()) {
+				found = true
+			}
+		})
+		if found {
+			return true
+		}
+	}
+	return false
+}
+
+// valueCone: fn, the library functions of its package it calls, and the ones it
+// uses as function values (function literals, method values), transitively.
+func (c *Ctx) valueCone(fn *ssa.Function) ([]*ssa.Function, bool) {
+	seen := map[*ssa.Function]bool{}
+	var out []*ssa.Function
+	opaque := false
+	inPkg := func(f *ssa.Function) bool {
+		if f.Pkg != nil {
+			return f.Pkg == fn.Pkg
+		}
+		if o := f.Object(); o != nil && o.Pkg() != nil && fn.Pkg != nil {
+			return o.Pkg() == fn.Pkg.Pkg
+		}
+		if p := f.Parent(); p != nil {
+			return p.Pkg == fn.Pkg
+		}
+		return false
+	}
+	var walk func(f *ssa.Function, d int)
+	walk = func(f *ssa.Function, d int) {
+		if f == nil || seen[f] || d > 7 || f.Blocks == nil || !inPkg(f) {
+			return
+		}
+		seen[f] = true
+		out = append(out, f)
+		for _, g := range withAnon(f) {
+			if !seen[g] {
+				seen[g] = true
+				out = append(out, g)
+			}
+			instrsOf(g, func(i ssa.Instruction) {
+				if call, ok := i.(ssa.CallInstruction); ok {
+					if callee := ir.Callee(call); callee != nil {
+						walk(callee, d+1)
+					} else if !call.Common().IsInvoke() {
+						if _, isB := call.Common().Value.(*ssa.Builtin); !isB {
+							opaque = true
+						}
+					}
+				}
+				for _, op := range i.Operands(nil) {
+					switch x := (*op).(type) {
+					case *ssa.Function:
+						walk(x, d+1)
+					case *ssa.MakeClosure:
+						if cf, ok := x.Fn.(*ssa.Function); ok {
+							walk(cf, d+1)
+						}
+					}
+				}
+			})
+		}
+	}
+	walk(fn, 0)
+	return out, opaque
+}
+
+// testAndSet: the function both reads and writes memory behind one of its pointer
+// parameters (a "have I seen this before" helper on a set the caller holds).
+func testAndSet(fn *ssa.Function) bool {
+	for _, p := range fn.Params {
+		if _, isPtr := p.Type().Underlying().(*types.Pointer); !isPtr {
+			continue
+		}
+		reads, writes := false, false
+		instrsOf(fn, func(i ssa.Instruction) {
+			switch x := i.(type) {
+			case *ssa.Store:
+				if ir.RootOf(x.Addr) == ssa.Value(p) {
+					writes = true
+				}
+			case *ssa.UnOp:
+				if x.Op == token.MUL && ir.RootOf(x.X) == ssa.Value(p) {
+					reads = true
+				}
+			case *ssa.MapUpdate:
+				if ir.RootOf(x.Map) == ssa.Value(p) {
+					writes = true
+				}
+			case *ssa.Lookup:
+				if ir.RootOf(x.X) == ssa.Value(p) {
+					reads = true
+				}
+			}
+		})
+		if reads && writes {
+			return true
+		}
 	}
 	return false
 }
